@@ -288,6 +288,32 @@ fn be_le(bytes: &[u8], big: bool) -> u128 {
     v
 }
 
+/// A range request beyond the reader's bounds is documented to panic (`EndianReader`) or panics through slice indexing
+/// (`EndianSlice`). Whatever it does, it must not hand back a reader that views bytes outside the reader it was taken from.
+fn out_of_bounds_range<K: Kind>(r: R<Option<K>>, parent: Cur, base: *const u8, what: &str) -> R {
+    if let Ok(Some(r)) = r {
+        if parent.emptied {
+            return Ok(());
+        }
+        let (p, l) = r.view();
+        let off = (p as usize).wrapping_sub(base as usize);
+        let reported = r.len();
+        ensure!(
+            off >= parent.off && off.checked_add(l.max(reported)).is_some_and(|e| e <= parent.off + parent.len),
+            "c10/range/out-of-bounds-view",
+            "kind={} {} on a reader of {} bytes at buffer offset {} returned a reader viewing offset {} length {} (len() = {})",
+            K::NAME,
+            what,
+            parent.len,
+            parent.off,
+            off as isize,
+            l,
+            reported
+        );
+    }
+    Ok(())
+}
+
 /// Run the history on one reader kind; returns the observation trace.
 fn interpret<K: Kind>(h: &History, root: K, base: *const u8, other: &K, cx: &mut Ctx) -> R<Vec<String>> {
     let data = &h.data;
@@ -779,6 +805,10 @@ fn interpret<K: Kind>(h: &History, root: K, base: *const u8, other: &K, cx: &mut
                     check_view!(r, nc, "range");
                     pool.push((r, nc));
                     trace.push(format!("range({},{})", a, b));
+                } else {
+                    let rdr = pool[i].0.clone();
+                    out_of_bounds_range::<K>(catch("range", move || rdr.k_range(a, b)), c, base, &format!("range({}..{})", a, b))?;
+                    trace.push(format!("range({},{}) out of bounds", a, b));
                 }
             }
             Op::RangeFrom(i, a) => {
@@ -797,6 +827,11 @@ fn interpret<K: Kind>(h: &History, root: K, base: *const u8, other: &K, cx: &mut
                     check_view!(r, nc, "range_from");
                     pool.push((r, nc));
                     trace.push(format!("range_from({})", a));
+                } else {
+                    let rdr = pool[i].0.clone();
+                    let a = *a;
+                    out_of_bounds_range::<K>(catch("range_from", move || rdr.k_range_from(a)), c, base, &format!("range_from({}..)", a))?;
+                    trace.push(format!("range_from({}) out of bounds", a));
                 }
             }
             Op::RangeTo(i, b) => {
@@ -815,6 +850,11 @@ fn interpret<K: Kind>(h: &History, root: K, base: *const u8, other: &K, cx: &mut
                     check_view!(r, nc, "range_to");
                     pool.push((r, nc));
                     trace.push(format!("range_to({})", b));
+                } else {
+                    let rdr = pool[i].0.clone();
+                    let b = *b;
+                    out_of_bounds_range::<K>(catch("range_to", move || rdr.k_range_to(b)), c, base, &format!("range_to(..{})", b))?;
+                    trace.push(format!("range_to({}) out of bounds", b));
                 }
             }
             Op::Len(i) => {
@@ -925,7 +965,7 @@ impl Prop for C10 {
         vec![
             "offset_from is only called when the model says self lies within base (documented: may panic otherwise)",
             "after empty() pointer-derived observations (view offset, offset_from, offset_id) are not compared: EndianSlice re-points at a static empty slice",
-            "range/range_from/range_to are called in bounds only (documented panic otherwise)",
+            "range/range_from/range_to beyond the reader's bounds may panic (documented) but must never return a reader viewing bytes outside the reader they were taken from",
             "the reader position after a failed read is unspecified: the model resynchronises from len(), which may only shrink, and all kinds must agree on it",
         ]
     }
